@@ -191,7 +191,18 @@ def _main(P, args, tier, seed, t0, wd):
         classify_failure(i, "counterexample", "; ".join(fs))
     for i in ev["offgrid"]:
         classify_failure(i, "counterexample", "result off the time grid: " + results[i]["offgrid"])
-    oracle_bad = set(ev["oracle_fail"]) | set(ev["py_fail"]) | set(ev["offgrid"])
+    # the same inputs in a process started differently (python -O, C locale, warnings as errors, shallow stack, bare
+    # file names, nothing remembered from earlier calls) must give what the main process gave
+    env_ran, env_diffs, env_info = 0, [], {}
+    if not os.environ.get("VERIF_NO_ENVPASS"):
+        env_ran, env_diffs, env_info = core.env_pass(P.ID, wd, cases, results, 300 if tier == "quick" else 3000)
+        for i, got in env_diffs:
+            if i in ev["py_fail"] or i in ev["oracle_fail"] or i in ev["offgrid"]:
+                continue
+            classify_failure(i, "counterexample", "the result depends on how the interpreter was started (second process: python -O, "
+                             "LC_ALL=C without UTF-8 mode, DeprecationWarning as error, shallow stack, bare file names): there it "
+                             "gave %s" % json.dumps(got)[:400])
+    oracle_bad = set(ev["oracle_fail"]) | set(ev["py_fail"]) | set(ev["offgrid"]) | set(i for i, _ in env_diffs)
     corr_only = [i for i in ev["corr_fail"] if i not in oracle_bad]
 
     search_note = None
@@ -318,6 +329,8 @@ def _main(P, args, tier, seed, t0, wd):
             "offgrid_results": len(ev["offgrid"]),
             "known_findings_hit": {k: len(v) for k, v in known_hits.items()},
             "corpus_cases": ncorpus,
+            "second_process": {"cases_rerun": env_ran, "differences": len(env_diffs), "python_O": env_info.get("debug") is False,
+                               "encoding": env_info.get("encoding"), "environment": core.ENV_OTHER},
             "search": search_note,
             "exhaustive": False,
             "explanation": P.EXPLANATION,
